@@ -98,7 +98,7 @@ def prepare(chk, join='.'):
     it.join_rx = re.compile(join) if join else None
     from props import coincontract
     coincontract.install(it)
-    it.prefer_summary_rx = re.compile(r'Covenant::(from_bytes|execute)$|covenant_weight_from_bytes$|Value::into_bool$|'
+    it.prefer_summary_rx = re.compile(r'Covenant::(from_bytes|execute|to_ops|weight|hash)$|covenant_weight_from_bytes$|Value::into_bool$|'
                                       r'microergs_per_dosc$')
     return it
 
